@@ -249,3 +249,97 @@ def write_zgy(path, data, il, xl, z0_ms, dz_ms):
             vol = np.stack([np.array(f.read_inline(i), dtype=np.float32, copy=True) for i in range(len(f.ilines))])
             return {"ilines": np.array(f.ilines), "xlines": np.array(f.xlines), "samples": np.array(f.samples, dtype=np.float64),
                     "cube": vol}
+
+
+# ---- generated VDS sources (openvds: Amplitude + Trace + SEGYTraceHeader channels, as SEGYImport lays them out)
+def write_vds(path, data, il, xl, z0_ms, dz_ms):
+    """il, xl = [start, step] (step > 0: a VDS axis is (min, max, count)).  Returns what pyvds reports."""
+    import openvds
+    import pyvds
+    track_vds()
+    data = np.ascontiguousarray(data, dtype=np.float32)
+    n_il, n_xl, ns = data.shape
+    if os.path.exists(path):
+        os.remove(path)
+    hdr = np.zeros((n_il, n_xl, 240), dtype=np.uint8)
+    ilv = (np.int64(il[0]) + np.int64(il[1]) * np.arange(n_il)).astype(">i4")
+    xlv = (np.int64(xl[0]) + np.int64(xl[1]) * np.arange(n_xl)).astype(">i4")
+    hdr[:, :, 188:192] = np.frombuffer(ilv.tobytes(), dtype=np.uint8).reshape(n_il, 1, 4)
+    hdr[:, :, 192:196] = np.frombuffer(xlv.tobytes(), dtype=np.uint8).reshape(1, n_xl, 4)
+    hdr[:, :, 114:116] = np.frombuffer(np.array([ns], dtype=">u2").tobytes(), dtype=np.uint8)
+    hdr[:, :, 116:118] = np.frombuffer(np.array([int(round(dz_ms * 1000)) & 0xFFFF], dtype=">u2").tobytes(), dtype=np.uint8)
+    VL, CD = openvds.VolumeDataLayoutDescriptor, openvds.VolumeDataChannelDescriptor
+    layout = VL(VL.BrickSize.BrickSize_32, 0, 0, 4, VL.LODLevels.LODLevels_None, VL.Options.Options_None)
+    axes = [openvds.VolumeDataAxisDescriptor(ns, "Sample", "ms", float(z0_ms), float(z0_ms) + float(dz_ms) * (ns - 1)),
+            openvds.VolumeDataAxisDescriptor(n_xl, "Crossline", "", float(xl[0]), float(xl[0] + xl[1] * (n_xl - 1))),
+            openvds.VolumeDataAxisDescriptor(n_il, "Inline", "", float(il[0]), float(il[0] + il[1] * (n_il - 1)))]
+    lo, hi = float(data.min()), float(data.max())
+    ch = [CD(CD.Format.Format_R32, CD.Components.Components_1, "Amplitude", "", lo, hi if hi > lo else lo + 1.0),
+          CD(CD.Format.Format_U8, CD.Components.Components_1, "Trace", "", 0.0, 1.0, openvds.VolumeDataMapping.PerTrace,
+             CD.Flags.DiscreteData),
+          CD(CD.Format.Format_U8, CD.Components.Components_1, "SEGYTraceHeader", "", 0.0, 255.0,
+             openvds.VolumeDataMapping.PerTrace, 240, CD.Flags.DiscreteData, 1.0, 0.0)]
+    md = openvds.MetadataContainer()
+    md.setMetadataBLOB("SEGY", "TextHeader", bytes(3200))
+    md.setMetadataBLOB("SEGY", "BinaryHeader", bytes(400))
+    vds = openvds.create(path, "", layout, axes, ch, md)
+    try:
+        am = openvds.getAccessManager(vds)
+        for channel, src in ((0, data), (1, np.ones((n_il, n_xl, 1), dtype=np.uint8)), (2, hdr)):
+            acc = am.createVolumeDataPageAccessor(openvds.DimensionsND.Dimensions_012, 0, channel, 8,
+                                                  openvds.IVolumeDataAccessManager.AccessMode.AccessMode_Create, 1024)
+            for c in range(acc.getChunkCount()):
+                page = acc.createPage(c)
+                buf = np.array(page.getWritableBuffer(), copy=False)
+                mn, mx = acc.getChunkMinMax(c)
+                buf[...] = 0
+                buf[0:mx[2] - mn[2], 0:mx[1] - mn[1], 0:mx[0] - mn[0]] = src[mn[2]:mx[2], mn[1]:mx[1], mn[0]:mx[0]]
+                page.release()
+            acc.commit()
+    finally:
+        openvds.close(vds)
+    with pyvds.open(path) as f:
+        vol = np.stack([np.array(f.read_inline(i), dtype=np.float32, copy=True) for i in range(len(f.ilines))])
+        res = {"ilines": np.array(f.ilines), "xlines": np.array(f.xlines), "samples": np.array(f.samples, dtype=np.float64),
+               "cube": vol}
+    close_leaked_vds()
+    return res
+
+
+_vds_open = []
+
+
+def track_vds():
+    """pyvds opens one OpenVDS handle per accessor (iline, xline, depth_slice, trace, header) and closes only
+    the main one; each handle owns 17 native threads and is not released when the Python object dies.  The
+    harness wraps openvds.open/close (third-party, not the code under test) to know which handles are still
+    open, so that a shard running many VDS cases does not exhaust the thread limit."""
+    import openvds
+    if getattr(openvds, "_vp_tracked", False):
+        return
+    real_open, real_close = openvds.open, openvds.close
+
+    def open_(*a, **k):
+        h = real_open(*a, **k)
+        _vds_open.append(h)
+        return h
+
+    def close_(h):
+        for i, x in enumerate(_vds_open):
+            if x is h:
+                del _vds_open[i]
+                break
+        return real_close(h)
+    openvds.open, openvds.close, openvds._vp_tracked = open_, close_, True
+
+
+def close_leaked_vds():
+    """Close every OpenVDS handle that is still open (after the call under test has returned)."""
+    import openvds
+    while _vds_open:
+        h = _vds_open[-1]
+        try:
+            openvds.close(h)
+        except Exception:
+            if _vds_open and _vds_open[-1] is h:
+                _vds_open.pop()
